@@ -45,9 +45,9 @@ def plans(draw, max_calls=12):
     reqs = draw(st.lists(st.tuples(st.sampled_from(kinds), d).map(lambda t: [t[0], t[1]] + (['boom'] if t[0] == 'error' else [])), max_size=12))
     tl = draw(st.lists(st.tuples(st.integers(0, 3 * T), st.sampled_from(['kill', 'close'])).map(list), max_size=1))
     stall = None
-    if stack == 'thrift' and draw(st.sampled_from([False, False, True])):
+    if draw(st.sampled_from([False, False, True])):
       # a write that blocks part-way (full peer window) for about one timeout
-      stall = {'conn': draw(st.integers(0, 1)), 'send_index': draw(st.integers(0, 3)),
+      stall = {'conn': draw(st.integers(0, 1)), 'send_index': draw(st.integers(0, 3 if stack == 'thrift' else 6)),
                'cut': draw(st.sampled_from([1, 4, 10, 18, 30])), 'for_ms': draw(st.sampled_from([5, 15, 25, 45, 60, T + 10, 2 * T]))}
     servers[str(p)] = {'connect': [], 'requests': reqs, 'timeline': tl, 'stall': stall,
                        'chunks': draw(st.one_of(st.none(), st.lists(st.integers(1, 9), min_size=1, max_size=4)))}
